@@ -16,8 +16,10 @@ exactly as the original on every environment of the domain).
 `dep_roundtrip_vcs` for git dependencies whose location is in the normal form of the restricted git grammar (any scheme
 of the grammar, with and without user, port, reference and sub-directory), through the whole-URL inverse
 `giturl_inverse_full`.
-The full statement is `dep_roundtrip_full_statement`.  NOT proved of it: (1) URL dependencies with a sub-directory
-fragment and wheel URLs; git locations outside the restricted grammar;
+The full statement is `dep_roundtrip_full_statement`.  `dep_roundtrip_url_subdirectory` and `dep_roundtrip_url_wheel` cover `#subdirectory=` and wheel URLs (the wheel's file
+name must carry the dependency's name: `wheel_url_name_counterexample`).
+NOT proved of it: (1) git locations outside the restricted grammar; URLs read through `urlsplit` are characterised by
+the model's own computation on the concrete text (`UrlNF`, `UrlRead`, `VcsUrlOK`), not by a grammar;
 (2) constraints printed as a disjunction (they do not round-trip at all: `disjunction_not_reparsable`; outside the
 property's domain) — wildcard spellings `==X.*` / `!=X.*` are covered by `dep_roundtrip_registry_wildcard`; (3) dependencies that are
 members of an extra (`in_extras ≠ []`: the `extra == …` clause `to_pep_508` appends); (4) markers outside C13's domain
@@ -493,6 +495,142 @@ theorem dep_roundtrip_url (d : Dep) (url : String) (u : SplitUrl) (h : UrlWF d u
   · rw [a3, h.kind]; rfl
   · constructor <;>
       simp [Spec.isSameSourceAs, a4, a5, a6, a7, a8, h.stype, h.surl, h.ssub, h.sref, h.sres, truthy]
+
+/-- the printed URL of a URL dependency: the URL, then `#subdirectory=dir` when a directory is set -/
+def urlPrinted (url : String) (dir : Option String) : String :=
+  url ++ (if truthy dir then "#subdirectory=" ++ dir.getD "" else "")
+
+/-- well-formedness of a URL dependency with an optional sub-directory -/
+structure UrlWFd (d : Dep) (url : String) (dir : Option String) : Prop where
+  kind : d.kind = .url url dir
+  name : d.spec.name = canonName d.spec.prettyName
+  ident : Ident d.spec.prettyName.toList
+  feats : normFeatures d.spec.features = d.spec.features
+  featIdent : ∀ f ∈ d.spec.features, Ident f.toList
+  inExtras : d.inExtras = []
+  stype : d.spec.sourceType = some "url"
+  surl : d.spec.sourceUrl = some url
+  ssub : d.spec.sourceSubdirectory = dir
+  sref : d.spec.sourceReference = none
+  sres : d.spec.sourceResolvedReference = none
+  /-- the constructor accepted the URL -/
+  valid : ∃ u0, urlsplit url = .ok u0 ∧ u0.scheme ≠ "" ∧ u0.netloc ≠ ""
+
+theorem urlPrinted_text (d : Dep) (url : String) (dir : Option String) (h : UrlWFd d url dir)
+    (hany : d.marker.isAny = true) (hpy : d.pythonVersions = "*") :
+    d.toPep508 = .ok (d.spec.completePrettyName ++ " @ " ++ urlPrinted url dir) ∧
+    (d.spec.completePrettyName ++ " @ " ++ urlPrinted url dir).toList =
+      d.spec.prettyName.toList ++ extrasText (d.spec.features.map String.toList) ++
+        urlText (some (urlPrinted url dir).toList) ++ markerText none := by
+  have hbase : d.basePep508Name = .ok (d.spec.completePrettyName ++ " @ " ++ urlPrinted url dir) := by
+    simp only [Dep.basePep508Name, h.kind, urlPrinted, pure, Except.pure]
+    congr 1
+    apply String.toList_inj.mp
+    simp [String.toList_append, List.append_assoc]
+  refine ⟨by simp [Dep.toPep508, hbase, hany, hpy, h.inExtras, joinWith, bind, Except.bind, pure, Except.pure], ?_⟩
+  simp [Spec.completePrettyName, String.toList_append, featureSuffix_chars, urlText, markerText]
+
+theorem mkUrlDep_ok (n url : String) (dir : Option String) (es : List String) (u0 : SplitUrl)
+    (h : urlsplit url = .ok u0) (h1 : u0.scheme ≠ "") (h2 : u0.netloc ≠ "") : ∃ d, mkUrlDep n url dir es = .ok d := by
+  have hc : (u0.scheme == "" || u0.netloc == "") = false := by simp [h1, h2]
+  have hng : (some "url" == some "git") = false := by decide
+  simp only [mkUrlDep, h, hc, Spec.make, normalizeSourceUrl, mkDepStr, parseConstraint_star, hng, bind, Except.bind,
+    pure, Except.pure, Bool.and_false, Bool.false_eq_true, if_false]
+  exact ⟨_, rfl⟩
+
+/-- **round trip of a URL dependency with or without `#subdirectory=`** (not a wheel): same normalised name, extras,
+kind (URL and directory) and source -/
+theorem dep_roundtrip_url_subdirectory (d : Dep) (url : String) (dir : Option String) (u : SplitUrl)
+    (h : UrlWFd d url dir) (hu : UrlRead (urlPrinted url dir) u url dir)
+    (hnw : (extOf (basenameOf u.path.toList) == ".whl".toList) = false)
+    (hany : d.marker.isAny = true) (hpy : d.pythonVersions = "*")
+    (hnc : ∀ t, d.toPep508 = .ok t → NoComment t.toList) :
+    ∃ t d', d.toPep508 = .ok t ∧ createFromPep508 t = .ok d' ∧ d'.name = d.name ∧ d'.extras = d.extras ∧
+      d'.kind = Kind.textual d.kind ∧ sameSource d' d ∧ d'.marker = .any := by
+  obtain ⟨htp, hchars⟩ := urlPrinted_text d url dir h hany hpy
+  have hr := createFromPep508_url_read _ _ _ (urlPrinted url dir) url dir u hchars h.ident
+    (by intro e he; obtain ⟨f, hf, rfl⟩ := List.mem_map.mp he; exact h.featIdent f hf) hu (hnc _ htp)
+  simp only [hnw, Bool.false_eq_true, if_false, String.ofList_toList, map_ofList_toList] at hr
+  obtain ⟨u0, hv, hv1, hv2⟩ := h.valid
+  obtain ⟨d', hd'⟩ := mkUrlDep_ok d.spec.prettyName url dir d.spec.features u0 hv hv1 hv2
+  obtain ⟨a1, a2, a3, a4, a5, a6, a7, a8, a9, _⟩ := mkUrlDep_fields_dir _ _ _ _ _ hd'
+  refine ⟨_, d', htp, by rw [hr]; exact hd', ?_, ?_, ?_, ?_, a9⟩
+  · show d'.spec.name = d.spec.name
+    rw [a1, h.name]
+  · show d'.spec.features = d.spec.features
+    rw [a2, h.feats]
+  · rw [a3, h.kind]; rfl
+  · exact ⟨isSameSourceAs_of_fields _ _ (by rw [a4, h.stype]) (by rw [a5, h.surl]) (by rw [a6, h.ssub]) (by rw [a7, h.sref])
+      (by rw [a8, h.sres]),
+      isSameSourceAs_of_fields _ _ (by rw [a4, h.stype]) (by rw [a5, h.surl]) (by rw [a6, h.ssub]) (by rw [a7, h.sref])
+      (by rw [a8, h.sres])⟩
+
+/-- **round trip of a wheel-URL dependency**: `create_from_pep_508` takes name and version from the wheel's file name
+(`wheel_file_re`: groups `name`, `ver`); the round trip keeps the dependency's name EXACTLY WHEN that file name carries
+it (hypothesis `hname`; without it: `wheel_url_name_counterexample`).  The re-parsed dependency then has the same name,
+extras, kind and source, and the wheel's version as its constraint. -/
+theorem dep_roundtrip_url_wheel (d : Dep) (url : String) (dir : Option String) (u : SplitUrl)
+    (h : UrlWFd d url dir) (hu : UrlRead (urlPrinted url dir) u url dir)
+    (hw : (extOf (basenameOf u.path.toList) == ".whl".toList) = true) (n : List Char) (v : Option (List Char))
+    (hwn : wheelNameVer (if (basenameOf u.path.toList).isEmpty then u.netloc.toList else basenameOf u.path.toList) = some (n, v))
+    (hname : canonName (String.ofList n) = d.name)
+    (hver : ∀ x, v = some x → ∃ c, VParser.parseConstraint (String.ofList x) = .ok c)
+    (hany : d.marker.isAny = true) (hpy : d.pythonVersions = "*")
+    (hnc : ∀ t, d.toPep508 = .ok t → NoComment t.toList) :
+    ∃ t d', d.toPep508 = .ok t ∧ createFromPep508 t = .ok d' ∧ d'.name = d.name ∧ d'.extras = d.extras ∧
+      d'.kind = Kind.textual d.kind ∧ sameSource d' d ∧ d'.marker = .any := by
+  obtain ⟨htp, hchars⟩ := urlPrinted_text d url dir h hany hpy
+  have hr := createFromPep508_url_read _ _ _ (urlPrinted url dir) url dir u hchars h.ident
+    (by intro e he; obtain ⟨f, hf, rfl⟩ := List.mem_map.mp he; exact h.featIdent f hf) hu (hnc _ htp)
+  simp only [hw, if_true, hwn, map_ofList_toList] at hr
+  obtain ⟨u0, hv, hv1, hv2⟩ := h.valid
+  obtain ⟨d0, hd0⟩ := mkUrlDep_ok (String.ofList n) url dir d.spec.features u0 hv hv1 hv2
+  obtain ⟨a1, a2, a3, a4, a5, a6, a7, a8, a9, _⟩ := mkUrlDep_fields_dir _ _ _ _ _ hd0
+  -- `dep._constraint = parse_constraint(version)` touches the constraint only
+  have hwv : ∃ d', withVersion d0 v = .ok d' ∧ d'.spec = d0.spec ∧ d'.kind = d0.kind ∧ d'.marker = d0.marker := by
+    cases v with
+    | none => exact ⟨d0, rfl, rfl, rfl, rfl⟩
+    | some x =>
+      obtain ⟨c, hc⟩ := hver x rfl
+      exact ⟨{ d0 with constraint := c }, by simp [withVersion, hc, bind, Except.bind, pure, Except.pure], rfl, rfl, rfl⟩
+  obtain ⟨d', hd', e1, e2, e3⟩ := hwv
+  refine ⟨_, d', htp, ?_, ?_, ?_, ?_, ?_, by rw [e3, a9]⟩
+  · rw [hr]; simp only [hd0, bind, Except.bind]; exact hd'
+  · show d'.spec.name = d.spec.name
+    rw [e1, a1]; exact hname
+  · show d'.spec.features = d.spec.features
+    rw [e1, a2, h.feats]
+  · rw [e2, a3, h.kind]; rfl
+  · unfold sameSource
+    rw [e1]
+    exact ⟨isSameSourceAs_of_fields _ _ (by rw [a4, h.stype]) (by rw [a5, h.surl]) (by rw [a6, h.ssub]) (by rw [a7, h.sref])
+      (by rw [a8, h.sres]),
+      isSameSourceAs_of_fields _ _ (by rw [a4, h.stype]) (by rw [a5, h.surl]) (by rw [a6, h.ssub]) (by rw [a7, h.sref])
+      (by rw [a8, h.sres])⟩
+
+/-- non-vacuity: `https://example.com/a/foo-1.0.zip#subdirectory=pkg/core` and the wheel
+`https://example.com/foo_bar-1.0-py3-none-any.whl` are read as the hypotheses say -/
+example : ∃ u, UrlRead (urlPrinted "https://example.com/a/foo-1.0.zip" (some "pkg/core")) u
+    "https://example.com/a/foo-1.0.zip" (some "pkg/core") ∧
+    (extOf (basenameOf u.path.toList) == ".whl".toList) = false :=
+  ⟨_, { split := rfl, http := Or.inr (by decide), netloc := by decide, unsplit := by decide +kernel,
+        sub := by decide +kernel, nopct := by decide +kernel,
+        uri := ⟨⟨'h', "ttps://example.com/a/foo-1.0.zip#subdirectory=pkg/core".toList, by decide +kernel, by decide⟩, by decide +kernel⟩,
+        noUnc := by decide +kernel,
+        last := ⟨"https://example.com/a/foo-1.0.zip#subdirectory=pkg/cor".toList, 'e', by decide +kernel, by decide⟩ },
+    by decide +kernel⟩
+
+example : ∃ u, UrlRead (urlPrinted "https://example.com/foo_bar-1.0-py3-none-any.whl" none) u
+    "https://example.com/foo_bar-1.0-py3-none-any.whl" none ∧
+    (extOf (basenameOf u.path.toList) == ".whl".toList) = true ∧
+    wheelNameVer (if (basenameOf u.path.toList).isEmpty then u.netloc.toList else basenameOf u.path.toList) =
+      some ("foo_bar".toList, some "1.0".toList) ∧ canonName (String.ofList "foo_bar".toList) = "foo-bar" :=
+  ⟨_, { split := rfl, http := Or.inr (by decide), netloc := by decide, unsplit := by decide +kernel,
+        sub := by decide +kernel, nopct := by decide +kernel,
+        uri := ⟨⟨'h', "ttps://example.com/foo_bar-1.0-py3-none-any.whl".toList, by decide +kernel, by decide⟩, by decide +kernel⟩,
+        noUnc := by decide +kernel,
+        last := ⟨"https://example.com/foo_bar-1.0-py3-none-any.wh".toList, 'l', by decide +kernel, by decide⟩ },
+    by decide +kernel, by decide +kernel, by decide +kernel⟩
 
 /-- non-vacuity: `https://example.com/a/foo-1.0.tar.gz` is in normal form -/
 example : ∃ u, UrlNF "https://example.com/a/foo-1.0.tar.gz" u :=
